@@ -31,9 +31,9 @@ KERNEL_SAMPLE = {"quick": 60, "thorough": 400}
 KERNEL_MAXLEN = 700
 TRUSTED_BASE = ["lib/props/vmgen.py program generator and result-line parsers"]
 MANIFEST = dict(
-    text="Coq theorems over the hand-written model of run.rs run_count (after fix d7fdcd1): a slice with positive budget b yields exactly after b executed instructions (progress), slices compose (a then b = a+b), and for every list of positive budgets whose sum covers the uninterrupted run the sliced run ends with the same result and the same final machine state; an uninterrupted run never reports 'budget exhausted'. Tied to /repo by running generated programs uninterrupted, with every constant budget 1..64 and with pseudo-random budget sequences up to 10^4 on implementation, extracted model and (sub-sample) vm_compute, plus the cross-case oracle sliced line = uninterrupted line on the implementation itself.",
+    text="Coq theorems over the hand-written model of run.rs run_count (after fix d7fdcd1): a slice with positive budget b yields exactly after b executed instructions (progress), slices compose (a then b = a+b), and for every list of positive budgets whose sum covers the uninterrupted run the sliced run ends with the same result and the same final machine state; an uninterrupted run never reports 'budget exhausted'; at the level of the entry points: prepare_eval followed by run_count over any list of positive budgets returns the same Done/Failed result and the same machine state (all 12 fields) as eval and never ends unfinished (C13_eval_sliced_equals_eval); the Rust collects at slice boundaries and the model has no collector, which is what C03 covers. Tied to /repo by running generated programs uninterrupted, with every constant budget 1..64 and with pseudo-random budget sequences up to 10^4 on implementation, extracted model and (sub-sample) vm_compute, plus the cross-case oracle sliced line = uninterrupted line on the implementation itself.",
     design="DESIGN.md section 5 C13",
-    note="Trusted: Coq kernel; hand-written model of run.rs/compile.rs/prelude expansion tied by sampling correspondence (temporary small builtin table: integers, pairs, predicates, apply, call/cc, eval, error, display); the model has no collector (its unobservability is C03); harness resume loop and its 600000-resumption limit; Python generators and cross-case oracle. Axioms: the four standard-library axioms of Coq's Reals inherited through Flocq's binary64 in the number type of the machine state (Classical_Prop.classic, ClassicalDedekindReals.sig_forall_dec, sig_not_dec, FunctionalExtensionality.functional_extensionality_dep).",
+    note="Trusted: Coq kernel; hand-written model of run.rs/compile.rs/prelude expansion tied by sampling correspondence; the model has no collector (its unobservability is C03); harness resume loop and its 600000-resumption limit; Python generators and cross-case oracle. Axioms: the four standard-library axioms of Coq's Reals inherited through Flocq's binary64 in the number type of the machine state (Classical_Prop.classic, ClassicalDedekindReals.sig_forall_dec, sig_not_dec, FunctionalExtensionality.functional_extensionality_dep).",
     technique="Rocq/Coq proof (induction on the instruction budget) + model/implementation correspondence check + cross-case oracle sliced = uninterrupted")
 
 BUDGETS = list(range(1, 65))
